@@ -229,6 +229,7 @@ def check_program(ctx, src, name="p.nano"):
     if not acc:
         return stage, []
     problems = []
+    vm = None
     if stage == "emit_failed":
         problems.append(("vm", "bytecode generation failed for an accepted program", {"err": err[-500:].decode("utf-8", "replace")}))
     else:
@@ -242,7 +243,12 @@ def check_program(ctx, src, name="p.nano"):
     nat = ctx.tools.run_native(p, ctx.dir)
     if nat.cls == "inconclusive":
         return "inconclusive", []
-    if nat.cls == "internal_failure":
+    if (nat.cls == "internal_failure" and nat.stage != "compile" and nat.detail == "SIGSEGV" and vm is not None
+            and vm.cls == "documented_fault" and "Call depth exceeded" in vm.detail):
+        # the documented "call depth limit": the VM stops at VM_MAX_FRAMES, the native program (which has no counter) at the
+        # end of its C stack - same fault, reached a few thousand frames later
+        ctx.depth_faults = getattr(ctx, "depth_faults", 0) + 1
+    elif nat.cls == "internal_failure":
         problems.append(("native", ("native compile: " if nat.stage == "compile" else "native run: ") + nat.detail, nat.brief()))
     elif nat.cls == "rejected":
         # nanoc runs shadow tests with the compile-time evaluator: a refusal there is C03/C06 matter, a type error is not
